@@ -24,15 +24,23 @@ pub enum Api {
     FromLocal,
     AndLocalTimezone,
     WithYmdHms,
+    /// `from_utc_datetime` of the instant plus half a second (offsets are per whole second)
+    FromUtcFrac,
+    /// `from_local_datetime` of the wall-clock time plus half a second
+    FromLocalFrac,
 }
 
-pub const UTC_APIS: [Api; 4] = [Api::OffsetFromUtc, Api::FromUtc, Api::TimestampOpt, Api::WithTimezone];
-pub const LOCAL_APIS: [Api; 4] =
-    [Api::OffsetFromLocal, Api::FromLocal, Api::AndLocalTimezone, Api::WithYmdHms];
+pub const UTC_APIS: [Api; 5] =
+    [Api::OffsetFromUtc, Api::FromUtc, Api::TimestampOpt, Api::WithTimezone, Api::FromUtcFrac];
+pub const LOCAL_APIS: [Api; 5] =
+    [Api::OffsetFromLocal, Api::FromLocal, Api::AndLocalTimezone, Api::WithYmdHms, Api::FromLocalFrac];
 
 impl Api {
     pub fn is_local(self) -> bool {
-        matches!(self, Api::OffsetFromLocal | Api::FromLocal | Api::AndLocalTimezone | Api::WithYmdHms)
+        matches!(
+            self,
+            Api::OffsetFromLocal | Api::FromLocal | Api::AndLocalTimezone | Api::WithYmdHms | Api::FromLocalFrac
+        )
     }
 }
 
@@ -92,7 +100,26 @@ pub fn naive(secs: i64) -> Option<NaiveDateTime> {
     DateTime::<Utc>::from_timestamp(secs, 0).map(|d| d.naive_utc())
 }
 
+/// The helper views of a result must agree with its variant: `earliest()`, `latest()`,
+/// `single()`.
+fn helpers_agree<T: Clone + PartialEq>(r: &MappedLocalTime<T>) -> Option<String> {
+    let (e, l, s) = (r.clone().earliest(), r.clone().latest(), r.clone().single());
+    let ok = match r {
+        MappedLocalTime::Single(x) => e.as_ref() == Some(x) && l.as_ref() == Some(x) && s.as_ref() == Some(x),
+        MappedLocalTime::Ambiguous(a, b) => e.as_ref() == Some(a) && l.as_ref() == Some(b) && s.is_none(),
+        MappedLocalTime::None => e.is_none() && l.is_none() && s.is_none(),
+    };
+    if ok {
+        None
+    } else {
+        Some("earliest() / latest() / single() disagree with the variant of the result".to_string())
+    }
+}
+
 fn map_dt(r: MappedLocalTime<DateTime<Local>>, l: NaiveDateTime) -> Res {
+    if let Some(g) = helpers_agree(&r) {
+        return Res::Glue(g);
+    }
     match r {
         MappedLocalTime::Single(d) => {
             if d.naive_local() != l {
@@ -142,7 +169,25 @@ pub fn convert(api: Api, t: i64) -> Res {
             }
             Res::Single(d.offset().local_minus_utc())
         }
-        Api::OffsetFromLocal => match Local.offset_from_local_datetime(&n) {
+        Api::FromUtcFrac => {
+            let n = n + chrono::TimeDelta::milliseconds(500);
+            let d = Local.from_utc_datetime(&n);
+            if d.naive_utc() != n {
+                return Res::Glue(format!("naive_utc {} != {}", d.naive_utc(), n));
+            }
+            Res::Single(d.offset().local_minus_utc())
+        }
+        Api::FromLocalFrac => {
+            let n = n + chrono::TimeDelta::milliseconds(500);
+            map_dt(Local.from_local_datetime(&n), n)
+        }
+        Api::OffsetFromLocal => match {
+            let r = Local.offset_from_local_datetime(&n);
+            if let Some(g) = helpers_agree(&r) {
+                return Res::Glue(g);
+            }
+            r
+        } {
             MappedLocalTime::Single(a) => Res::Single(a.local_minus_utc()),
             MappedLocalTime::Ambiguous(a, b) => Res::Ambiguous(a.local_minus_utc(), b.local_minus_utc()),
             MappedLocalTime::None => Res::None,
